@@ -253,6 +253,7 @@ func checkC08(p *Prog, r *Report) {
 			pnt, _ := c.PointOf(call)
 			for _, ct := range c.DominatingConds(pnt) {
 				for _, a := range Conjuncts(ct) {
+					a = p.resolveSingleDefs(seal, a) // room := cap(dst) - len(dst)
 					if a.Op == "<=" {
 						l, rr := Lin(a.Args[0]), Lin(a.Args[1])
 						// l <= rr : len(pt)+Overhead <= cap(dst)-len(dst)
@@ -274,7 +275,7 @@ func checkC08(p *Prog, r *Report) {
 								ovOK = true
 							}
 						}
-						if capOK && lenOK && ptOK && ovOK && d.C == 0 && len(d.Coef) == 4 {
+						if capOK && lenOK && ptOK && ovOK && d.C == 0 && nonZeroCoefs(d) == 4 {
 							okCap = true
 						}
 					}
